@@ -1,6 +1,7 @@
 """C07 - masking and unpacking of file data follow the netCDF conventions (DESIGN.md section 4, C07)."""
 import json
 import os
+import sys
 
 import numpy as np
 
@@ -226,7 +227,24 @@ def gen_case(rng, dt, fam="field", subset=None, malformed=False, shape=None):
             else:
                 idx.append(["list", sorted(rng.sample(range(m), rng.randint(1, min(3, m))))])
     return {"dt": dt, "shape": shape, "data": data, "fill": fill, "attrs": attrs, "idx": idx,
-            "kind": "aux" if fam == "aux" else "field", "fam": fam, "inexact": inexact, "malformed": malformed}
+            "kind": "aux" if fam == "aux" else "field", "fam": fam, "inexact": inexact, "malformed": malformed,
+            "endian": pick_endian(rng), "bendian": pick_endian(rng)}
+
+
+ENDIANS = ["native", "big", "big", "little", "native"]
+
+
+def pick_endian(rng):
+    """Stored byte order of a variable (createVariable(endian=)); "bendian" is that of its bounds."""
+    return rng.choice(ENDIANS)
+
+
+def g_bo(c):
+    """Gallina byte order of the stored variable (this harness runs on a little-endian machine)."""
+    e = c.get("endian", "native")
+    if e == "native":
+        e = sys.byteorder
+    return "BE" if e == "big" else "LE"
 
 
 CORPUS = [
@@ -246,6 +264,20 @@ CORPUS = [
     {"dt": "i2", "shape": [3], "data": [1, 2, 3], "fill": None,
      "attrs": {"scale_factor": {"t": "f8", "v": [2, 3], "vec": True}}, "idx": [["slice", 0, 2, None]],
      "kind": "field", "fam": "corpus-F07e", "inexact": False, "malformed": True},
+    # round 3 seed: the _Unsigned view type lost the byte order of the data (big-endian variable)
+    {"dt": "i2", "shape": [5], "data": [1, 258, -2, -7, 300], "fill": None, "endian": "big", "bendian": "big",
+     "attrs": {"_Unsigned": {"t": "str", "v": "true"}, "valid_max": {"t": "i2", "v": [-3], "vec": False}},
+     "idx": [["slice", 1, 4, None]], "kind": "field", "fam": "corpus-big-endian-unsigned", "inexact": False, "malformed": False},
+    {"dt": "i4", "shape": [4], "data": [1, 65536, -2, 16777216], "fill": None, "endian": "big", "bendian": "little",
+     "attrs": {"_Unsigned": {"t": "str", "v": "true"}, "scale_factor": {"t": "f8", "v": [2], "vec": False}},
+     "idx": [["list", [0, 3]]], "kind": "aux", "fam": "corpus-big-endian-unsigned", "inexact": False, "malformed": False},
+    # identity packing under _Unsigned cast the view back to the signed type (fix3-1); int32 data with scale_factor = 1s wrapped
+    {"dt": "i2", "shape": [4], "data": [1, -2, -7, 258], "fill": None, "endian": "native", "bendian": "native",
+     "attrs": {"_Unsigned": {"t": "str", "v": "true"}, "scale_factor": {"t": "i2", "v": [1], "vec": False}},
+     "idx": [["slice", 1, 3, None]], "kind": "field", "fam": "corpus-identity-packing", "inexact": False, "malformed": False},
+    {"dt": "i4", "shape": [3], "data": [1, 70000, -70000], "fill": None, "endian": "big", "bendian": "big",
+     "attrs": {"add_offset": {"t": "i2", "v": [0], "vec": False}},
+     "idx": [["slice", 1, 3, None]], "kind": "field", "fam": "corpus-identity-packing", "inexact": False, "malformed": False},
     # vector missing_value on an auxiliary coordinate
     {"dt": "i4", "shape": [5], "data": [1, 2, 3, 4, -2147483647], "fill": 3,
      "attrs": {"missing_value": {"t": "i4", "v": [2, 4], "vec": True}}, "idx": [["slice", 0, 4, 2]],
@@ -276,7 +308,7 @@ def gen_var(rng, dt, n, cols=None, attrs="random", nw=None):
     for k in range((n - nw) * per, n * per):
         data[k] = fillv
     return {"dt": dt, "shape": shape, "n": n, "nw": nw, "attrs": c["attrs"], "fill": c["fill"], "data": data,
-            "inexact": c["inexact"] and bool(c["attrs"])}
+            "inexact": c["inexact"] and bool(c["attrs"]), "endian": pick_endian(rng)}
 
 
 def gen_pair(rng, k):
@@ -292,9 +324,10 @@ def gen_pair(rng, k):
     return {"kind": "pair", "ckind": ckind, "fam": "pair-" + ckind, "parent": parent, "child": child}
 
 
-def plain_var(dt, values, holes):
+def plain_var(dt, values, holes, endian="native"):
     data = [DEFAULT_FILL[dt] if k in holes else v for k, v in enumerate(values)]
-    return {"dt": dt, "shape": [len(values)], "n": len(values), "nw": 0, "attrs": {}, "fill": None, "data": data, "inexact": False}
+    return {"dt": dt, "shape": [len(values)], "n": len(values), "nw": 0, "attrs": {}, "fill": None, "data": data, "inexact": False,
+            "endian": endian}
 
 
 def gen_geom(rng):
@@ -303,16 +336,20 @@ def gen_geom(rng):
     def holes(m):
         return set(rng.sample(range(m), rng.choice([0, 1, 1, 2])))
     return {"kind": "geom", "fam": "geom",
-            "ir": plain_var(rng.choice(INTS), [0, 1, 0, 0], holes(4)),
-            "x": plain_var(rng.choice(DTYPES), X, holes(13)), "y": plain_var(rng.choice(DTYPES), Y, holes(13)),
-            "lon": plain_var(rng.choice(DTYPES), [10, 40], holes(2)), "lat": plain_var(rng.choice(DTYPES), [25, 7], holes(2)),
+            "ir": plain_var(rng.choice(INTS), [0, 1, 0, 0], holes(4), pick_endian(rng)),
+            "x": plain_var(rng.choice(DTYPES), X, holes(13), pick_endian(rng)),
+            "y": plain_var(rng.choice(DTYPES), Y, holes(13), pick_endian(rng)),
+            "lon": plain_var(rng.choice(DTYPES), [10, 40], holes(2), pick_endian(rng)),
+            "lat": plain_var(rng.choice(DTYPES), [25, 7], holes(2), pick_endian(rng)),
+            "count_endian": pick_endian(rng),
             # a node coordinate variable without a representative coordinate variable
-            "z": plain_var(rng.choice(DTYPES), [1, 2, 4, 2, 3, 4, 5, 5, 1, 4, 3, 2, 1], holes(13)) if rng.random() < 0.5 else None}
+            "z": plain_var(rng.choice(DTYPES), [1, 2, 4, 2, 3, 4, 5, 5, 1, 4, 3, 2, 1], holes(13), pick_endian(rng))
+                 if rng.random() < 0.5 else None}
 
 
 def gen_dsg(rng):
     n = 5
-    return {"kind": "dsg", "fam": "dsg", "count_dt": rng.choice(["i4", "i2", "u1", "i8", "u4"]),
+    return {"kind": "dsg", "fam": "dsg", "count_dt": rng.choice(["i4", "i2", "u1", "i8", "u4"]), "count_endian": pick_endian(rng),
             "data_var": gen_var(rng, rng.choice(DTYPES), n, attrs=rng.choice(["none", "masking"]), nw=rng.choice([1, 2])),
             "time": gen_var(rng, rng.choice(DTYPES), n, attrs="none", nw=rng.choice([0, 1, 2])),
             "lat": gen_var(rng, rng.choice(DTYPES), 2, attrs="none", nw=rng.choice([0, 1]))}
@@ -339,7 +376,7 @@ def gen_string(rng, k):
 def as_case(var, i):
     """A variable of a multi-variable case in the shape of a single-variable case."""
     return {"i": i, "dt": var["dt"], "attrs": var["attrs"], "fill": var["fill"], "data": var["data"], "shape": var["shape"],
-            "inexact": var["inexact"], "malformed": False, "kind": "field", "fam": "pair"}
+            "inexact": var["inexact"], "malformed": False, "kind": "field", "fam": "pair", "endian": var.get("endian", "native")}
 
 
 def pair_names(c):
@@ -518,7 +555,9 @@ def ref_agrees(c, o, ref, u):
     scalar_missing = o["shape"] == [] and o["flat"] == [None]     # the masked constant has no type of its own
     if o["dtype"] != ref["dtype"] and not (u == 1 and identity_pack(c)) and not scalar_missing:
         return False           # identity packing: the unpacked type is the attribute's type (CF 8.1)
-    cmp_values = o["dtype"] == ref["dtype"]
+    # identity packing: cfdm presents the type the arithmetic would give, netCDF4-python the packed (viewed)
+    # type; the VALUES must be the same numbers
+    cmp_values = o["dtype"] == ref["dtype"] or (u == 1 and identity_pack(c) and not c.get("inexact"))
     dv = u == 1 and default_fill_under_view(c)
     dfl = DEFAULT_FILL[c["dt"]]
     for x, y, raw in zip(o["flat"], ref["flat"], c["data"]):
@@ -527,8 +566,19 @@ def ref_agrees(c, o, ref, u):
         if (x is None) != (y is None):
             return False
         if cmp_values and x != y:
+            if o["dtype"] != ref["dtype"] and o["dtype"] in FLOATS and isinstance(y, int) and x is not None:
+                # presented in a float type: the value as that type holds it
+                if enc(np.array(y).astype(o["dtype"])) == x:
+                    continue
             return False
     return True
+
+
+def enc(v):
+    v = float(v)
+    if v != v:
+        return "nan"
+    return int(v) if v.is_integer() else v
 
 
 def np_select(obs, idx):
@@ -641,6 +691,8 @@ def judge(chk, model_ok, cases, rows, crashed):
     stats = {"families": {}, "dtypes": {}, "attr_present": {}, "ref_errors": 0, "ref_compared": 0,
              "apply_compared": 0, "sub_compared": 0, "backend_pairs": 0, "masked_elements": 0, "elements": 0,
              "unsafe_attr_cases": 0, "vector_missing_cases": 0, "nan_cases": 0, "unsigned_cases": 0, "packed_cases": 0}
+    stats["endian"] = {}
+    stats["big_endian_unsigned_view_cases"] = 0
     explained = set()
     lits_read, map_read = [], []
     lits_app, map_app = [], []
@@ -677,6 +729,12 @@ def judge(chk, model_ok, cases, rows, crashed):
             pn, bn, bnc = pair_names(c)
             variables[pn] = (as_case(c["parent"], c["i"]), "parent", pn)
             stats["dtypes"][c["parent"]["dt"]] = stats["dtypes"].get(c["parent"]["dt"], 0) + 1
+            for var in (c["parent"], c["child"]):
+                if var:
+                    en = var.get("endian", "native")
+                    stats["endian"][en] = stats["endian"].get(en, 0) + 1
+                    if en == "big" and unsigned_on(var) and var["dt"] in ("i2", "i4", "i8"):
+                        stats["big_endian_unsigned_view_cases"] += 1
             stats["prefilled_elements"] += c["parent"]["nw"]
             if c["child"]:
                 variables[bn] = (as_case(c["child"], c["i"]), "child", bnc)
@@ -747,7 +805,8 @@ def judge(chk, model_ok, cases, rows, crashed):
                     if rr is not None and "err" not in rr and not (vector_pack(V) or str_attr(V)):
                         stats["ref_compared"] += 1
                         if not ref_agrees(V, w, rr, int(u)):
-                            fail(c, "read-differs-from-netCDF4-library", f"read(mask=True, unpack={u}, {b}) of {name} in {desc}: cfdm presents "
+                            fail(c, "identity-packing-changes-values" if (u and identity_pack(V)) else "read-differs-from-netCDF4-library",
+                                 f"read(mask=True, unpack={u}, {b}) of {name} in {desc}: cfdm presents "
                                  f"{brief(w)}, netCDF4-python presents {brief(rr)}", brief(rr), brief(w), key + "|" + name)
                 elif not u and not same(w, ref.get("raw")):
                     fail(c, "mask-off-unpack-off-not-raw", f"{desc}: {name} read(mask=False, unpack=False, {b}) {brief(w)} but the file holds "
@@ -800,7 +859,7 @@ def judge(chk, model_ok, cases, rows, crashed):
                     w = A.get(name)
                     if w is None or "err" in w or not modelable(V):
                         continue
-                    lits_read.append(f"({V['dt'].upper()}, {g_case_attrs(V)}, {gbool(m)}, {gbool(u)}, {glist(V['data'], g_num)}, {g_obs(w)})")
+                    lits_read.append(f"({g_bo(V)}, {V['dt'].upper()}, {g_case_attrs(V)}, {gbool(m)}, {gbool(u)}, {glist(V['data'], g_num)}, {g_obs(w)})")
                     map_read.append((c, key + "|" + name, w))
                     if m or (u and packing(V)):
                         continue
@@ -812,7 +871,7 @@ def judge(chk, model_ok, cases, rows, crashed):
                         Pc = variables[pair_names(c)[0]][0]
                         wm = cf.get(f"{b}|1|{int(u)}", {}).get("all", {}).get(name)
                         if modelable(Pc) and wm is not None:
-                            lits_child.append(f"({V['dt'].upper()}, {g_case_attrs(V)}, {g_case_attrs(Pc)}, {gbool(u)}, "
+                            lits_child.append(f"({g_bo(V)}, {V['dt'].upper()}, {g_case_attrs(V)}, {g_case_attrs(Pc)}, {gbool(u)}, "
                                               f"{glist(V['data'], g_num)}, {g_obs(wm)}, {g_obs(oa)})")
                             map_child.append((c, key + "|" + name, oa))
 
@@ -827,6 +886,10 @@ def judge(chk, model_ok, cases, rows, crashed):
             continue
         stats["families"][c["fam"]] = stats["families"].get(c["fam"], 0) + 1
         stats["dtypes"][c["dt"]] = stats["dtypes"].get(c["dt"], 0) + 1
+        en = c.get("endian", "native")
+        stats["endian"][en] = stats["endian"].get(en, 0) + 1
+        if en == "big" and unsigned_on(c) and c["dt"] in ("i2", "i4", "i8"):
+            stats["big_endian_unsigned_view_cases"] += 1
         for k in c["attrs"]:
             stats["attr_present"][k] = stats["attr_present"].get(k, 0) + 1
         if c["fill"] is not None:
@@ -860,7 +923,9 @@ def judge(chk, model_ok, cases, rows, crashed):
                 ok = ref_agrees(c, o, ref, u)
                 if not ok:
                     sig = "read-differs-from-netCDF4-library"
-                    if unsigned_on(c) and not isint(c["dt"]):
+                    if u == 1 and identity_pack(c):
+                        sig = "identity-packing-changes-values"
+                    elif unsigned_on(c) and not isint(c["dt"]):
                         sig = "unsigned-attribute-on-non-integer"
                     elif c["attrs"].get("missing_value", {}).get("vec") and o is not None and o.get("err") == "ValueErr":
                         sig = "vector-missing-value-array-raises"
@@ -900,6 +965,11 @@ def judge(chk, model_ok, cases, rows, crashed):
                     if (wm["dtype"] != w["dtype"] and wm["flat"] != [None]) or any(x is not None and x != y for x, y in zip(wm["flat"], w["flat"])):
                         fail(c, "masked-read-values-differ-from-unmasked", f"{desc}: masked read {brief(wm)} vs unmasked {brief(w)}",
                              brief(w), brief(wm), key)
+            # the data type declared before the data are read is the type of the data once read
+            decl = o.get("decl")
+            if decl is not None and w["dtype"] in DTYPES and not (w["shape"] == [] and w["flat"] == [None]) and decl != w["dtype"]:
+                fail(c, "declared-dtype-differs-from-read", f"{desc}: read(mask={m}, unpack={u}, {b}): Data.dtype is {decl} before the data "
+                     f"are read, the array is {w['dtype']}", w["dtype"], decl, key)
             # O4: subspace
             for sk in ("sub", "subd"):
                 if sk in o:
@@ -967,7 +1037,7 @@ def judge(chk, model_ok, cases, rows, crashed):
                     w0 = cf.get(f"{b}|0|{int(u)}", {}).get("whole")
                     if w0 is not None and "err" not in w0:
                         wl = dict(w, dtype=w0["dtype"])     # the masked constant has no data type of its own
-                lits_read.append(f"({c['dt'].upper()}, {g_case_attrs(c)}, {gbool(m)}, {gbool(u)}, {glist(c['data'], g_num)}, {g_obs(wl)})")
+                lits_read.append(f"({g_bo(c)}, {c['dt'].upper()}, {g_case_attrs(c)}, {gbool(m)}, {gbool(u)}, {glist(c['data'], g_num)}, {g_obs(wl)})")
                 map_read.append((c, key, w))
                 if not m and "applied" in o and not (u and packing(c)) and not str_attr(c):
                     oa = o["applied"]
@@ -1013,6 +1083,9 @@ def judge(chk, model_ok, cases, rows, crashed):
                 "(not safely castable) / NaN / vectors; data drawn from the attribute values and their neighbours, the default fill "
                 "value, type limits, NaN; 1-d, 2-d and scalar variables; data variables and auxiliary coordinates with bounds; a "
                 "malformed stream (string-valued attributes, valid_range of 1 or 3 values, vector scale_factor/add_offset). "
+                "Every variable (data variable, coordinate, bounds, domain ancillary, cell measure, field ancillary, geometry node / "
+                "ring / count variables, DSG count variable) is stored with a byte order drawn from native / little / big "
+                "(createVariable(endian=)), independently for a coordinate and its bounds, crossed with all the above. "
                 "Constructs with children (pair-*: dimension / auxiliary coordinate / domain ancillary with bounds, cell measure, field "
                 "ancillary; parent and child of different data types, each with its own attributes, trailing rows never written so that "
                 "the library pre-fills them), polygon geometries (node coordinates, interior ring, a node coordinate without "
@@ -1033,8 +1106,10 @@ def judge(chk, model_ok, cases, rows, crashed):
         "the reference semantics is netCDF4-python's auto mask-and-scale on the same file (set_auto_maskandscale(True), and "
         "set_auto_mask(True) alone for unpack=False); where it raises itself under numpy 2 (_Unsigned with a negative fill "
         "value) the proved Spec/model is the only oracle",
-        "documented deviation accepted: with only scale_factor == 1 (or only add_offset == 0) cfdm presents the attribute's data "
-        "type (CF 8.1) where netCDF4-python leaves the packed type; values and mask must still agree",
+        "documented deviation accepted: with only scale_factor == 1 (or only add_offset == 0) cfdm presents the data type that the "
+        "unpacking arithmetic would give (CF 8.1) where netCDF4-python leaves the packed (viewed) type; the values are compared as "
+        "numbers and the mask must agree",
+        "the harness runs on a little-endian machine: 'native' is little-endian in the Gallina literals (sys.byteorder is consulted)",
         "integers are exact in Z; float variables and attributes are restricted in the model to integers of magnitude <= 2^24 "
         "(f4) / 2^53 (f8), the default fill value 15*2^119 and NaN; elements whose unpacked value leaves that range, and "
         "non-integer scale factors, are compared with netCDF4-python only",
